@@ -40,7 +40,7 @@ P.append(("hdrpatdef", api("  /g:\n    get:\n      operationId: g\n      respons
                         "    E: {type: object, required: [m], properties: {m: {type: string}}}\n    O: {type: object, required: [v], properties: {v: {type: string}}}\n")))
 import os
 # 10. enum values that give little to build an identifier from (punctuation-only, non-ASCII-only, digit-first, near-collisions)
-for i, vals in enumerate([['*', 'read', 'write'], ['_', 'a'], ['?', 'b', 'B'], ['\u20ac', 'eur'], ['\u4e2d\u6587', 'zh'], ['*', '?'], ['1', '1.0', '01'], ['a-b', 'a_b', 'a b', 'aB'], ['+', '-', '/', '<', '>', '=', '.'], ['Scope', 'scope', 'SCOPE']]):
+for i, vals in enumerate([['*', 'read', 'write'], ['_', 'a'], ['?', 'b', 'B'], ['\u20ac', 'eur'], ['\u4e2d\u6587', 'zh'], ['*', '?'], ['1', '1.0', '01'], ['a-b', 'a_b', 'a b', 'aB'], ['+', '-', '/', '<', '>', '=', '.'], ['Scope', 'scope', 'SCOPE'], ['\ufffdx', 'y'], ['\ufffd']]):
     P.append(("enumedge%d" % i, api("  /g:\n    get:\n      operationId: g\n      parameters:\n        - {name: scope, in: query, schema: {$ref: '#/components/schemas/Scope'}}\n      responses:\n        '200': {description: ok, content: {application/json: {schema: {type: array, items: {$ref: '#/components/schemas/Grant'}}}}}\n",
                   "    Scope: {type: string, enum: %s}\n    Grant: {type: object, required: [scope], properties: {scope: {$ref: '#/components/schemas/Scope'}}}\n" % json.dumps(vals))))
 # 11. one generic (nullable / optional / array) type as the direct body of several operations' responses
@@ -58,6 +58,26 @@ for loc, style in (("header", "simple"), ("cookie", "form"), ("path", "simple"),
     req = "true" if loc == "path" else "false"
     P.append(("objparam_%s_%s" % (loc, style), api("  /items/{f}:\n    get:\n      operationId: it\n      parameters:\n        - {name: f, in: %s, required: %s, style: %s, schema: {type: object, required: [a], properties: {a: {type: string}, b: {type: integer}}}}\n%s      responses:\n        '200': {description: ok}\n" % (loc, req, style, "" if loc == "path" else "        - {name: f, in: path, required: true, schema: {type: string}}\n"))))
 # 13. feature configurations on a spec with paths, webhooks, security, validation keywords
+# 14. a second batch of hostile names / values (each must be refused with a diagnostic or build)
+def obj_with_props(names):
+    return "    H:\n      type: object\n      properties:\n" + "".join("        %s: {type: string}\n" % json.dumps(k) for k in names)
+for i, names in enumerate([[""], [" "], ["\n"], ["\U0001F600"], ["-"], ["123"], ["a", "A"], ["a.b", "a/b"], ["\u00e9", "e\u0301"], ["go", "Go", "GO"], ["Value", "Set", "Null"], ["$", "@", "#"], ["x" * 300], ["String", "Error"]]):
+    P.append(("hostprops2_%d" % i, api(op("/h", "h", "H"), obj_with_props(names))))
+# known finding: a property whose field name equals a method generated for the struct (codec / validation methods, getters, setters)
+fm = ""
+for i, names in enumerate([["Encode", "Decode", "Validate"], ["a", "getA"], ["a", "setA"], ["MarshalJSON"]]):
+    fm += obj_with_props(names).replace("    H:", "    H%d:" % i)
+P.append(("fieldmethod", api("".join(op("/h%d" % i, "h%d" % i, "H%d" % i) for i in range(4)), fm)))
+for i, (opid1, opid2) in enumerate([("a b", "a-b"), ("\u00e9", "e"), ("1", "2"), ("", "x"), ("type", "func"), ("Get", "get"), ("op", "Op")]):
+    P.append(("hostops_%d" % i, api(op("/a", opid1) + op("/b", opid2))))
+for i, pn in enumerate(["a b", "a-b", "1", "\u00e9", "X-\u00e9", "type", "a.b", "a[b]", "a[]"]):
+    P.append(("hostparam_%d" % i, api(op("/p", "p", params="        - {name: %s, in: query, schema: {type: string}}\n        - {name: %s, in: header, schema: {type: integer}}\n" % (json.dumps(pn), json.dumps(pn))))))
+for i, sch in enumerate(["{type: string, enum: ['']}", "{type: string, enum: [null, a], nullable: true}", "{type: integer, enum: [1, 1]}", "{type: string, default: 5}", "{type: integer, default: x}",
+                         "{type: array, items: {type: array, items: {type: array, items: {type: string}}}}", "{type: object, additionalProperties: {type: object, additionalProperties: {type: integer}}}",
+                         "{type: string, format: date, default: 'not-a-date'}", "{type: boolean, enum: [true]}", "{type: number, enum: [1.5, 2]}", "{type: string, pattern: '['}", "{type: string, pattern: '(?<=a)b'}",
+                         "{type: object, properties: {a: {type: string}}, required: [a, b]}", "{type: object, maxProperties: 1, additionalProperties: true}", "{oneOf: [{type: string}, {type: string, format: uuid}]}",
+                         "{anyOf: [{type: string}, {type: integer}]}", "{allOf: [{type: string}, {type: integer}]}", "{type: array, items: {}, minItems: 1}", "{}", "{nullable: true}"]):
+    P.append(("hostschema_%d" % i, api(op("/s", "s", "X"), "    X: %s\n" % sch)))
 FEATURES = {}
 fs = open(os.path.join(os.path.dirname(os.path.abspath(__file__)), "spec_features.yml")).read()
 for name, (en, dis) in {
